@@ -118,7 +118,9 @@ def gen_spec(rng, n, allow_bad=False):
         if rng.random() < 0.5:
             ts[rng.randrange(ncell)] = F(0)
         return dict(kind="arr", ts=[S(t) for t in ts], form=rng.choice(["n", "n1", "list_n", "n1"]))
-    if r < 0.82:
+    if r < 0.72:
+        return dict(kind="field", variant=rng.choice(["same", "larger", "larger", "coarser", "finer"]), todo=True)
+    if r < 0.86:
         cs = [F(rng.randint(-8, 8), 4) for _ in n]
         c0 = F(rng.randint(-16, 48), 4)
         return dict(kind="affine", c0=S(c0), cs=[S(c) for c in cs], shift=True)
@@ -127,10 +129,59 @@ def gen_spec(rng, n, allow_bad=False):
                 hi=S(rng.choice([F(0), F(2), F(5), F(1, 2 ** 19)])))
 
 
+def fix_field(spec, p1, p2, n, rng):
+    """a one-component Field used as norm specification: same mesh / same n on a larger containing
+    region / coarser / finer mesh.  No centre of a target cell lies on a face of a spec cell (the
+    sampled value is then the value of the containing spec cell, whichever way the code samples)."""
+    lo = [min(F(a), F(b)) for a, b in zip(p1, p2)]
+    hi = [max(F(a), F(b)) for a, b in zip(p1, p2)]
+    cw = [(h - l) / m for l, h, m in zip(lo, hi, n)]
+    variant = spec["variant"]
+    slo, shi, ns = list(lo), list(hi), list(n)
+    if variant == "larger":
+        for _ in range(30):
+            slo = [l - rng.choice([0, 0, 1, 2, 3, 5]) * c / 2 for l, c in zip(lo, cw)]
+            shi = [h + rng.choice([0, 0, 1, 2, 3, 5]) * c / 2 for h, c in zip(hi, cw)]
+            scw = [(h - l) / m for l, h, m in zip(slo, shi, n)]
+            ties = any(((l + (j + F(1, 2)) * c - sl) / sc).denominator == 1
+                       for l, c, sl, sc, m in zip(lo, cw, slo, scw, n) for j in range(m))
+            if not ties and (slo != lo or shi != hi):
+                break
+        else:
+            slo, shi, variant = list(lo), list(hi), "same"
+    elif variant == "coarser":
+        ns = [m // 2 if m % 2 == 0 else (m // 3 if m % 3 == 0 else m) for m in n]
+        if ns == list(n):
+            variant = "same"
+    elif variant == "finer":
+        ns = [3 * n[0]] + list(n[1:])
+    spec["variant"] = variant
+    nsc = math.prod(ns)
+    form = "array"
+    if variant in ("same", "larger") and ns[0] >= 2 and rng.random() < 0.3:
+        # the spec field itself is built from a dictionary over a subregion of ITS mesh
+        form = "dict"
+        split = rng.randint(1, ns[0] - 1)
+        ta, tb = rng.choice(TVALS), rng.choice(TVALS)
+        stride = nsc // ns[0]
+        vals = [ta if j // stride < split else tb for j in range(nsc)]
+        spec.update(split=split, ta=S(ta), tb=S(tb))
+    else:
+        vals = [rng.choice(TVALS) if rng.random() < 0.7 else F(rng.randint(0, 64), 8) for _ in range(nsc)]
+        if rng.random() < 0.4:
+            vals[rng.randrange(nsc)] = F(0)
+    swap = rng.random() < 0.3
+    spec.update(p1=[S(x) for x in (shi if swap else slo)], p2=[S(x) for x in (slo if swap else shi)], ns=ns,
+                vals=[S(x) for x in vals], form=form)
+    return spec
+
+
 def fix_step(spec, p1, p2, n, rng):
     """threshold of a step spec: a cell face or a cell centre of the chosen axis (dyadic);
     affine specs are shifted so that the smallest target is exactly zero or positive (negative
     targets are outside the property's quantifier)"""
+    if spec["kind"] == "field" and spec.pop("todo", False):
+        return fix_field(spec, p1, p2, n, rng)
     if spec["kind"] == "affine" and spec.pop("shift", False):
         lo = [min(F(a), F(b)) for a, b in zip(p1, p2)]
         cell = [abs(F(b) - F(a)) / k for a, b, k in zip(p1, p2, n)]
@@ -281,6 +332,83 @@ def gen_near(rng, tier):
                 norm0=spec if in_ctor else None, v0=v0, ops=ops, bad=False, near=dict(spec=sk, regime=regime))
 
 
+def axis_cell(rng, k):
+    if rng.random() < 0.15:
+        return [F(0)] * k
+    c = [F(0)] * k
+    c[rng.randrange(k)] = F(rng.randint(1, 40) * rng.choice([-1, 1])) * F(2) ** rng.choice([-19, -3, 0, 0, 1, 7, 60])
+    return c
+
+
+def gen_inplace(rng, tier):
+    """histories with in-place writes into field.array interleaved with reads of norm / orientation,
+    norm assignments, valid = 'norm' and updates"""
+    p1, p2, n = gen_mesh(rng, tier)
+    ncell = math.prod(n)
+    k = rng.choice([1, 2, 3, 3, 4])
+    style = rng.choice(["pyth", "pyth", "axis"])
+
+    def cell():
+        return axis_cell(rng, k) if style == "axis" else gen_cell(rng, k, "std")
+
+    vals = flat([cell() for _ in range(ncell)])
+    norm0 = fix_step(gen_spec(rng, n), p1, p2, n, rng) if rng.random() < 0.3 else None
+    vr = rng.random()
+    v0 = dict(kind="all", form="default") if vr < 0.4 else (
+        dict(kind="arr", l=[rng.random() < 0.7 for _ in range(ncell)]) if vr < 0.7 else dict(kind="norm"))
+    ops = []
+    nops = rng.randint(3, 6) if tier == "quick" else rng.randint(3, 10)
+    for j in range(nops):
+        r = rng.random()
+        if j == 0 and r < 0.7:
+            r = 0.0
+        if r < 0.25:
+            ops.append(dict(op="read"))
+        elif r < 0.62:
+            wk = rng.choice(["scale", "scale", "cell", "cell", "comp", "slice"])
+            if wk == "scale":
+                w = dict(kind="scale", c=S(rng.choice([F(2), F(2), F(1, 2), F(4), F(1, 4), F(3), F(-1), F(-2), F(0)])))
+            elif wk == "cell":
+                w = dict(kind="cell", idx=[rng.randrange(m) for m in n], v=[S(x) for x in cell()])
+            elif wk == "comp":
+                if style == "axis":
+                    w = dict(kind="comp", comp=rng.randrange(k), c=S(rng.choice([F(0), F(0), F(2), F(-1), F(1, 2)])),
+                             mul=rng.random() < 0.5)
+                    if not w["mul"] and F(w["c"]) != 0:
+                        w["c"] = "0/1"      # assigning a non-zero component would leave the axis-aligned class
+                else:
+                    w = dict(kind="comp", comp=rng.randrange(k), c="-1/1", mul=True)
+            else:
+                w = dict(kind="slice", i=rng.randrange(n[0]), v=[S(x) for x in cell()])
+            ops.append(dict(op="inplace", w=w))
+        elif r < 0.82:
+            ops.append(dict(op="setnorm", spec=fix_step(gen_spec(rng, n), p1, p2, n, rng)))
+        elif r < 0.92:
+            ops.append(dict(op="validnorm"))
+        else:
+            ops.append(dict(op="update", vals=flat([cell() for _ in range(ncell)]),
+                            form=rng.choice(["array", "update_array_attr"])))
+    return dict(kind="hist", mode="inpl", p1=p1, p2=p2, n=n, nvdim=k, unit=rng.choice(UNITS), vals=vals,
+                norm0=norm0, v0=v0, ops=ops, bad=False)
+
+
+def gen_dictspec(rng, tier):
+    """norm = {subregion: value, 'default': value} on a mesh with a subregion (cells below a cell face
+    along one axis): the targets are those of the step function"""
+    p1, p2, n = gen_mesh(rng, tier)
+    ncell = math.prod(n)
+    k = rng.choice([1, 2, 3, 4])
+    ax = rng.randrange(len(n))
+    lo, hi = sorted([F(p1[ax]), F(p2[ax])])
+    x0 = lo + rng.randint(1, n[ax]) * (hi - lo) / n[ax]
+    spec = dict(kind="dict", ax=ax, x0=S(x0), lo=S(rng.choice(TVALS)), hi=S(rng.choice(TVALS)))
+    in_ctor = rng.random() < 0.4
+    return dict(kind="hist", mode="dict", p1=p1, p2=p2, n=n, nvdim=k, unit=rng.choice(UNITS),
+                vals=flat(gen_cells(rng, ncell, k, "std")), norm0=spec if in_ctor else None,
+                v0=dict(kind="all", form="default"), ops=[] if in_ctor else [dict(op="setnorm", spec=spec)],
+                bad=False, subregion=dict(ax=ax, x0=S(x0)))
+
+
 INT_DTYPES = ["int8", "int16", "int32", "int64", "uint8", "uint16", "uint32", "uint64"]
 
 
@@ -402,6 +530,10 @@ def generate(rng, tier):
         cases.append(gen_near(rng, tier))
     for _ in range(50 if quick else 800):
         cases.append(gen_intfield(rng, tier))
+    for _ in range(110 if quick else 1600):
+        cases.append(gen_inplace(rng, tier))
+    for _ in range(20 if quick else 200):
+        cases.append(gen_dictspec(rng, tier))
     for _ in range(3):
         cases.append(gen_intdtype(rng))
     for _ in range(3):
@@ -413,8 +545,20 @@ def generate(rng, tier):
 
 
 # ------------------------------------------------------------------ implementation side
+def lower_part(p1, p2, ax, x0):
+    """Region covering the part of [p1, p2] below x0 along axis ax (floats)"""
+    lo = [min(fl(a), fl(b)) for a, b in zip(p1, p2)]
+    hi = [max(fl(a), fl(b)) for a, b in zip(p1, p2)]
+    hi[ax] = fl(x0)
+    return df.Region(p1=lo, p2=hi)
+
+
 def mk_mesh(c):
-    return df.Mesh(p1=[fl(x) for x in c["p1"]], p2=[fl(x) for x in c["p2"]], n=c["n"])
+    kw = {}
+    if c.get("subregion"):
+        sr = c["subregion"]
+        kw["subregions"] = {"a": lower_part(c["p1"], c["p2"], sr["ax"], sr["x0"])}
+    return df.Mesh(p1=[fl(x) for x in c["p1"]], p2=[fl(x) for x in c["p2"]], n=c["n"], **kw)
 
 
 def arr_of(vals, n, k, dtype=None):
@@ -458,11 +602,26 @@ def py_spec(spec, n):
             p = np.atleast_1d(p)
             return lo if float(p[ax]) < x0 else hi
         return step
+    if kind == "field":
+        ns = spec["ns"]
+        kw = {}
+        if spec["form"] == "dict":
+            lo = [min(fl(a), fl(b)) for a, b in zip(spec["p1"], spec["p2"])]
+            cw0 = abs(fl(spec["p2"][0]) - fl(spec["p1"][0])) / ns[0]
+            kw["subregions"] = {"a": lower_part(spec["p1"], spec["p2"], 0, lo[0] + spec["split"] * cw0)}
+        sm = df.Mesh(p1=[fl(x) for x in spec["p1"]], p2=[fl(x) for x in spec["p2"]], n=ns, **kw)
+        if spec["form"] == "dict":
+            return df.Field(sm, nvdim=1, value={"a": fl(spec["ta"]), "default": fl(spec["tb"])})
+        return df.Field(sm, nvdim=1, value=np.array([fl(x) for x in spec["vals"]], dtype=float).reshape(*ns, 1))
+    if kind == "dict":
+        return {"a": fl(spec["lo"]), "default": fl(spec["hi"])}
     raise ValueError(kind)
 
 
 def coq_spec(spec):
     kind = spec["kind"]
+    if kind == "field":
+        return f"(SField {g.ql(spec['p1'])} {g.ql(spec['p2'])} {g.zl(spec['ns'])} {g.ql(spec['vals'])})"
     if kind == "const":
         return f"(SConst {g.q(spec['t'])})"
     if kind == "arr":
@@ -484,6 +643,19 @@ def spec_values(spec, mesh):
     pmin = [F(float(x)) for x in np.atleast_1d(mesh.region.pmin)]
     cell = [F(float(x)) for x in np.atleast_1d(mesh.cell)]
     out = []
+    if kind == "field":
+        # the spec field sampled at the cell centre = value of the spec cell containing the centre
+        ns = spec["ns"]
+        slo = [min(F(a), F(b)) for a, b in zip(spec["p1"], spec["p2"])]
+        scw = [abs(F(b) - F(a)) / m for a, b, m in zip(spec["p1"], spec["p2"], ns)]
+        sv = [F(x) for x in spec["vals"]]
+        for idx in np.ndindex(*n):
+            p = [lo + (i + F(1, 2)) * c for lo, i, c in zip(pmin, idx, cell)]
+            j = 0
+            for x, l, w, m in zip(p, slo, scw, ns):
+                j = j * m + min(max(math.floor((x - l) / w), 0), m - 1)
+            out.append(sv[j])
+        return out
     for idx in np.ndindex(*n):
         p = [lo + (i + F(1, 2)) * c for lo, i, c in zip(pmin, idx, cell)]
         if kind == "affine":
@@ -662,6 +834,28 @@ def run_hist(c):
                 # an earlier norm is not re-applied
                 if not np.array_equal(f.array, new):
                     out.append("update-after-norm-not-verbatim")
+            elif o["op"] == "read":
+                # reading the views in the middle of a history: checked like the final ones, and they
+                # must not change the values
+                oracle_views(f, out)
+                if not np.array_equal(f.array, before):
+                    out.append("reading-views-changed-values")
+            elif o["op"] == "inplace":
+                w = o["w"]
+                a = f.array            # the array the getter hands out; written in place
+                if w["kind"] == "scale":
+                    a[...] *= fl(w["c"])
+                elif w["kind"] == "cell":
+                    a[tuple(w["idx"])] = [fl(x) for x in w["v"]]
+                elif w["kind"] == "comp":
+                    if w["mul"]:
+                        a[..., w["comp"]] *= fl(w["c"])
+                    else:
+                        a[..., w["comp"]] = fl(w["c"])
+                else:
+                    a[w["i"]] = [fl(x) for x in w["v"]]
+                if f.array is not a:
+                    out.append("array-getter-returns-copy")
             else:
                 st, _ = attempt(lambda: setattr(f, "valid", "norm"))
                 if st != "ok":
@@ -672,6 +866,23 @@ def run_hist(c):
     # Gallina
     ops_c = []
     for o in c["ops"]:
+        if o["op"] == "read":
+            continue
+        if o["op"] == "inplace":
+            w = o["w"]
+            if w["kind"] == "scale":
+                ops_c.append(f"PWrite (WScale {g.q(w['c'])})")
+            elif w["kind"] == "cell":
+                j = 0
+                for i, m in zip(w["idx"], n):
+                    j = j * m + i
+                ops_c.append(f"PWrite (WCell {g.nat(j)} {g.ql(w['v'])})")
+            elif w["kind"] == "comp":
+                ops_c.append(f"PWrite (WComp {g.nat(w['comp'])} {g.q(w['c'])} {g.b(w['mul'])})")
+            else:
+                stride = math.prod(n[1:])
+                ops_c.append(f"PWrite (WSlice {g.nat(w['i'] * stride)} {g.nat((w['i'] + 1) * stride)} {g.ql(w['v'])})")
+            continue
         if o["op"] == "setnorm":
             ops_c.append(f"PSetNorm {coq_spec(o['spec'])}")
         elif o["op"] == "update":
@@ -813,6 +1024,10 @@ def stats(records):
             out["subthreshold_or_threshold"] += int(c["mode"] in ("sub", "thr"))
             out["near_target"] = out.get("near_target", 0) + int(c["mode"] == "near")
             out["integer_dtype"] = out.get("integer_dtype", 0) + int(c["mode"] == "int")
+            out["inplace_writes"] = out.get("inplace_writes", 0) + sum(1 for o in c["ops"] if o["op"] == "inplace")
+            allspecs = [c["norm0"]] + [o.get("spec") for o in c["ops"]]
+            out["field_specs"] = out.get("field_specs", 0) + sum(1 for sp in allspecs if sp and sp["kind"] == "field")
+            out["dict_specs"] = out.get("dict_specs", 0) + sum(1 for sp in allspecs if sp and sp["kind"] == "dict")
             out["constructor_norm"] += int(c["norm0"] is not None)
             out["valid_norm"] += int(c["v0"]["kind"] == "norm")
         elif c["kind"] == "rel":
